@@ -18,6 +18,8 @@ Obs == /\ Len(arr') = Len(Ev.objs) /\ maxId' = Ev.maxId
        /\ freed' = {Ev.freed[i] : i \in 1..Len(Ev.freed)}
        /\ Len(Ev.find) = maxId' + 2
        /\ \A k \in 1..Len(Ev.find) : Ev.find[k] = FindIdx(k - 1)'
+       /\ Len(Ev.ver) = maxId' + 2
+       /\ \A k \in 1..Len(Ev.ver) : Ev.ver[k] = Verify(k - 1, "Alpha")'
        /\ \A f \in 1..Len(Ev.byA) : Ev.byA[f] = ByName("Alpha", f)' /\ Ev.byB[f] = ByName("Beta_X", f)'
        /\ Ev.kwA = KwCount("Alpha")' /\ Ev.kwB = KwCount("Beta_X")'
 TNew == IsEvent("New") /\ Recreate(Ev.own) /\ Obs
